@@ -506,7 +506,9 @@ class Builder:
 
     def build(self, tamper=None):
         rec = self.rec
-        replay = bool(rec.get('evaluator_observed')) and self.cfg.get('parallelization_mode', 'single') == 'single'
+        # not replayed: parallel dispatcher (retry logic) and zero time budget (evaluations skipped by the timer)
+        replay = bool(rec.get('evaluator_observed')) and self.cfg.get('parallelization_mode', 'single') == 'single' \
+            and self.cfg.get('timeout_min', 2.0) != 0.0
         script = self.script()
         n = self.n
         gens = [(LABELS.get(g['label'], 'LNone'), [n(u) for u in g['members']]) for g in self.gens]
@@ -640,6 +642,15 @@ def gen_cases(ctx):
                 if rep % 2:
                     cfg['objective']['faults'] = rng.choice(pats)[1]
                 cases.append({'group': 'loop:' + lp['via'], 'cfg': cfg, 'loop': lp})
+            i += 1
+    # an error raised while the timer already reports its time limit (a timer __exit__ must not suppress it)
+    for rep in range(ctx.budget(1, 3)):
+        for show in (False, True):
+            cfg = base_cfg(rng, optrun.POPULATIONAL[(i + rep) % 3], i)
+            cfg['show_progress'] = show
+            cfg['timeout_min'] = 0.0
+            cases.append({'group': 'loop:callback_time_limit', 'cfg': cfg,
+                          'loop': {'via': 'callback', 'at': 0, 'exc': 'RuntimeError'}})
             i += 1
     return cases
 
